@@ -166,6 +166,18 @@ func (lp *logProcessor[INPUT, OUTPUT]) forgeLog(
 		if errors.Is(err, postgres.ErrDeadlockDetected) || errors.Is(err, ledgerstore.ErrIdempotencyKeyConflict{}) {
 			return lp.forgeLogRetry(ctx, store, parameters, fn)
 		}
+		if parameters.IdempotencyKey != "" {
+			// The key was looked up before any lock was taken: a concurrent request carrying the same
+			// key may have committed since, and this error was then computed against the state it left
+			// behind. The committed outcome prevails over such an error.
+			log, output, ikErr := lp.fetchLogWithIK(ctx, store, parameters)
+			if ikErr != nil {
+				return nil, nil, false, ikErr
+			}
+			if output != nil {
+				return log, output, true, nil
+			}
+		}
 		return nil, nil, false, fmt.Errorf("unexpected error while forging log: %w", err)
 	}
 
